@@ -110,33 +110,84 @@ def fromhex(s):
     return mk_bytes(out)
 
 
+def _mchar_for(terms):
+    """placeholder character for one multi-byte UTF-8 sequence (a tuple of byte items)"""
+    r = _reg()
+    key = ('utf8m',) + tuple(x if isinstance(x, int) else x.get_id() for x in terms)
+    idx = r['ids'].get(key)
+    if idx is None:
+        idx = len(r['terms'])
+        if PUA_BASE + idx > PUA_END:
+            eng().fail(Unsupported, 'too many symbolic string payload bytes')
+        r['terms'].append(('utf8m', tuple(terms)))
+        r['ids'][key] = idx
+    return chr(PUA_BASE + idx)
+
+
+def _in(x, lo, hi):
+    if isinstance(x, int):
+        return lo <= x <= hi
+    return eng().decide(z3.And(x >= lo, x <= hi))
+
+
 def decode_utf8(b):
-    """str(b, 'utf-8') for symbolic bytes: only the ASCII range is modelled (1 byte = 1 char)"""
+    """str(b, 'utf-8') for symbolic bytes: the UTF-8 automaton (RFC 3629: 1..4 byte sequences, no overlongs, no surrogates, max
+    U+10FFFF) runs under the solver - one decision per byte class; an ASCII byte becomes one placeholder character, a multi-byte
+    sequence becomes ONE placeholder character (so len() counts characters, as in CPython); malformed input raises
+    UnicodeDecodeError like CPython"""
+    items = list(items_of(b))
+    if all(isinstance(x, int) for x in items):
+        return bytes(items).decode('utf-8')
     out = []
-    conc = []
-    for x in items_of(b):
-        if isinstance(x, int):
-            conc.append(x)
-            out.append(None)
+    i, n = 0, len(items)
+
+    def bad(pos, why='invalid start byte'):
+        raise UnicodeDecodeError('utf-8', b'', pos, pos + 1, why)
+    while i < n:
+        x = items[i]
+        if _in(x, 0x00, 0x7f):
+            out.append(chr(x) if isinstance(x, int) else _char_for(x, 'utf8'))
+            i += 1
+            continue
+        if _in(x, 0xc2, 0xdf):
+            need, first = 1, (0x80, 0xbf)
+        elif _in(x, 0xe0, 0xef):
+            need = 2
+            first = (0xa0, 0xbf) if _in(x, 0xe0, 0xe0) else (0x80, 0x9f) if _in(x, 0xed, 0xed) else (0x80, 0xbf)
+        elif _in(x, 0xf0, 0xf4):
+            need = 3
+            first = (0x90, 0xbf) if _in(x, 0xf0, 0xf0) else (0x80, 0x8f) if _in(x, 0xf4, 0xf4) else (0x80, 0xbf)
         else:
-            if eng().decide(x >= 0x80):
-                eng().fail(Unsupported, 'non-ASCII symbolic byte in UTF-8 decode (outside the modelled range)')
-            out.append(_char_for(x, 'utf8'))
-    if any(c >= 0x80 for c in conc):
-        if all(o is None for o in out):
-            return bytes(conc).decode('utf-8')
-        eng().fail(Unsupported, 'mixed non-ASCII concrete and symbolic bytes in UTF-8 decode')
-    it = iter(conc)
-    return ''.join(chr(next(it)) if o is None else o for o in out)
+            bad(i)
+        if i + need > n - 1:
+            bad(i, 'unexpected end of data')
+        seq = [x]
+        for k in range(1, need + 1):
+            y = items[i + k]
+            lo, hi = first if k == 1 else (0x80, 0xbf)
+            if not _in(y, lo, hi):
+                bad(i + k, 'invalid continuation byte')
+            seq.append(y)
+        if all(isinstance(t, int) for t in seq):
+            out.append(bytes(seq).decode('utf-8'))
+        else:
+            out.append(_mchar_for(seq))
+        i += need + 1
+    return ''.join(out)
 
 
 def encode_utf8(s):
     if not has_placeholder(s):
         return s.encode('utf-8')
     out = []
+    r = _reg()
     for c in s:
         if is_placeholder(c):
-            out.append(term_of(c, 'utf8'))
+            idx = ord(c) - PUA_BASE
+            if idx < len(r['terms']) and r['terms'][idx][0] == 'utf8m':
+                out.extend(r['terms'][idx][1])
+            else:
+                out.append(term_of(c, 'utf8'))
         elif c in _NUM_INDEX:
             eng().fail(Unsupported, 'decimal placeholder encoded as text')
         else:
@@ -186,17 +237,22 @@ def parse_int(s, base=10):
 
 
 def str_items(s):
-    """items (ints / terms) of a str made of ASCII characters and utf8 placeholders, or None"""
+    """UTF-8 byte items (ints / terms) of a str made of ordinary characters and utf8 placeholders, or None"""
     out = []
     for c in s:
         if is_placeholder(c):
             r = _reg()
             idx = ord(c) - PUA_BASE
-            if idx >= len(r['terms']) or r['terms'][idx][0] != 'utf8':
+            if idx >= len(r['terms']) or r['terms'][idx][0] not in ('utf8', 'utf8m'):
                 return None
-            out.append(r['terms'][idx][1])
-        elif c == HEX_MARK or c in _NUM_INDEX or ord(c) >= 0x80:
+            if r['terms'][idx][0] == 'utf8m':
+                out.extend(r['terms'][idx][1])
+            else:
+                out.append(r['terms'][idx][1])
+        elif c == HEX_MARK or c in _NUM_INDEX:
             return None
+        elif ord(c) >= 0x80:
+            out.extend(c.encode('utf-8'))
         else:
             out.append(ord(c))
     return out
